@@ -813,7 +813,7 @@ func c15AgentSession(ev *vlib.Evidence, bin string, session int) {
 	defer os.RemoveAll(dir)
 	r := vlib.Rand("C15-agent", session)
 	// raw websocket server: replies are literal texts
-	mode := session % 8
+	mode := session % 12
 	var mu sync.Mutex
 	seen := []string{}
 	upgrader := websocket.Upgrader{}
@@ -863,6 +863,23 @@ func c15AgentSession(ev *vlib.Evidence, bin string, session int) {
 				} else {
 					reply = fmt.Sprintf(`{"jsonrpc":"2.0","id":%s,"result":{"peers":[{"ID":"x","uri":%q},{"uri":"enode://@"},{"uri":"::::"}]}}`, m.ID, pickS(r))
 				}
+			case 8, 9, 10, 11:
+				// one hostile field at a time, everything else well-formed, so that the field is actually reached
+				hostile := fmt.Sprintf(`[%q,%q,"enode://@","%%zz","enode://a@[::1","http://x/","\u0000","enode://%s@1.2.3.4:99999"]`, pickS(r), pickS(r), strings.Repeat("f", 128))
+				switch {
+				case m.Method == "vipnode_connect":
+					reply = fmt.Sprintf(`{"jsonrpc":"2.0","id":%s,"result":{"pool_version":"evil"}}`, m.ID)
+				case m.Method == "vipnode_update" && mode == 8:
+					reply = fmt.Sprintf(`{"jsonrpc":"2.0","id":%s,"result":{"invalid_peers":%s,"active_peers":[]}}`, m.ID, hostile)
+				case m.Method == "vipnode_update" && mode == 9:
+					reply = fmt.Sprintf(`{"jsonrpc":"2.0","id":%s,"result":{"invalid_peers":[],"active_peers":%s}}`, m.ID, hostile)
+				case m.Method == "vipnode_update" && mode == 11:
+					reply = fmt.Sprintf(`{"jsonrpc":"2.0","id":%s,"result":{"invalid_peers":[],"active_peers":[],"balance":{"account":%q,"credit":-1e400,"deposit":null},"latest_block_number":18446744073709551615}}`, m.ID, pickS(r))
+				case m.Method == "vipnode_update":
+					reply = fmt.Sprintf(`{"jsonrpc":"2.0","id":%s,"result":{"invalid_peers":[],"active_peers":[]}}`, m.ID)
+				default:
+					reply = fmt.Sprintf(`{"jsonrpc":"2.0","id":%s,"result":{"peers":[{"ID":%q,"uri":"%%zz"},{"ID":"","uri":"enode://@"},{"uri":"enode://a@[::1"},{"uri":%q}]}}`, m.ID, pickS(r), pickS(r))
+				}
 			default:
 				// valid replies plus a flood of reverse requests of hostile shape
 				reply = fmt.Sprintf(`{"jsonrpc":"2.0","id":%s,"result":{"pool_version":"evil","invalid_peers":[],"active_peers":[]}}`, m.ID)
@@ -886,7 +903,11 @@ func c15AgentSession(ev *vlib.Evidence, bin string, session int) {
 	if session%2 == 0 {
 		full = "?fakepeers=3"
 	}
-	ap, err := vlib.StartProc(filepath.Join(dir, "agent.log"), []string{"HOME=" + dir}, bin, "agent", "ws://"+ln.Addr().String()+"/", "--rpc", "fakenode://"+id.NodeID+full, "--nodekey", key, "--update-interval=6s", "--min-peers=3")
+	agentArgs := []string{"agent", "ws://" + ln.Addr().String() + "/", "--rpc", "fakenode://" + id.NodeID + full, "--nodekey", key, "--update-interval=6s", "--min-peers=3"}
+	if (session/12)%2 == 1 || mode == 9 {
+		agentArgs = append(agentArgs, "--strict-peers")
+	}
+	ap, err := vlib.StartProc(filepath.Join(dir, "agent.log"), []string{"HOME=" + dir}, bin, agentArgs...)
 	if err != nil {
 		ev.Inconclusive("agent-start")
 		return
@@ -931,7 +952,7 @@ func TestC15(t *testing.T) {
 			go func(st string, s int) { defer wg.Done(); c15PoolSession(ev, bin, st, s, vlib.Scale(600, 3000)) }(st, s)
 		}
 	}
-	for s := 0; s < vlib.Scale(8, 64); s++ {
+	for s := 0; s < vlib.Scale(12, 96); s++ {
 		wg.Add(1)
 		go func(s int) { defer wg.Done(); c15AgentSession(ev, bin, s) }(s)
 	}
